@@ -46,7 +46,7 @@ class GenState:
         return self.register_mangled(name, obj)
 
     def register_mangled(self, base: str, obj: object) -> str:
-        base = self._name_sanitizer.sanitize(base)
+        base = self._name_sanitizer.sanitize(base) or "_"
         if self._namespace.try_add_constant(base, obj):
             return base
 
